@@ -7,6 +7,9 @@ ENGINES = [
 ]
 
 PHASES = {
+    "C16": [
+        {"pkg": "e1", "test": "TestC16Store", "phase": "C16/credential-stores"},
+    ],
     "C04": [
         {"pkg": "e1", "test": "TestC04Queue", "phase": "C04/queue-sequences"},
     ],
@@ -20,6 +23,12 @@ PHASES = {
 }
 
 META = {
+    "C16": {
+        "engine": "E1-seqx + E2-brokermc",
+        "technique": "exhaustive enumeration of credential tables x candidates on the real handlers vs a map model; explicit event exploration of refused/accepted CONNECTs on the in-process broker",
+        "text": "Every credential table over 6 users (all subsets; every 2-field / 3-field / empty-mount-point shape per entry; every file order up to 3 (quick) / 4 (thorough) entries, rotations and reversals beyond) is loaded by the real FileHandler and probed with exact, wrong-password, other-entry-password, swapped, empty and absent candidates; the static handler is probed over a 5x5x5x5 value grid. Accepted iff the pair is in the table, with that entry's mount point.",
+        "note": "The file stores the password fingerprint (sha256 hex) in field 2, as the record type PasswordHash says; duplicate user names are not generated.",
+    },
     "C04": {
         "engine": "E1-seqx + E4-schedx",
         "technique": "exhaustive bounded operation sequences on the real in-flight queue vs a map model; exhaustive preemption-bounded interleavings for the concurrent clause",
